@@ -14,8 +14,8 @@ pub fn run_family(seed: u64, n: usize, len: usize, scen: Scenario) {
     let per = (n + threads - 1) / threads;
     let mut handles = vec![];
     for t in 0..threads {
-        handles.push(std::thread::spawn(move || {
-            let rt = tokio::runtime::Builder::new_multi_thread().worker_threads(2).enable_all().build().unwrap();
+        handles.push(std::thread::Builder::new().stack_size(256 << 20).spawn(move || {   // the scripted scenarios are large futures in debug builds
+            let rt = tokio::runtime::Builder::new_multi_thread().worker_threads(2).thread_stack_size(64 << 20).enable_all().build().unwrap();
             let mut out = vec![];
             for j in 0..per {
                 let id = (t * per + j) as u64;
@@ -25,7 +25,7 @@ pub fn run_family(seed: u64, n: usize, len: usize, scen: Scenario) {
                 out.push((sim.history_term(), sim.tx_count, sim.ok_count, sim.kinds));
             }
             out
-        }));
+        }).unwrap());
     }
     let (mut txs, mut oks) = (0, 0);
     let mut kinds: std::collections::BTreeMap<String, (usize, usize)> = Default::default();
